@@ -6,6 +6,7 @@ import Pdb.Model.Pipeline
 import Pdb.Model.IndexPage
 import Pdb.Model.Meta
 import Pdb.Model.Wal
+import Pdb.Model.Validate
 
 open Pdb
 
@@ -95,6 +96,7 @@ def stepLine (s : State) (line : String) : State × String :=
   | "c19" :: rest => (s, Pdb.IndexPage.driverLine rest)
   | "c17" :: rest => (s, Pdb.C17.driverLine rest)
   | "c13" :: rest => (s, Pdb.Wal.driverLine rest)
+  | "c08" :: rest => (s, Pdb.Validate.driverLine rest)
   | [] => (s, "")
   | _ => (s, "bad-op")
 
